@@ -17,7 +17,7 @@ BASE = "/verif/seeded/.baseline_pass.json"
 
 
 def sh(cmd, cwd, timeout=3600):
-    return subprocess.run(cmd, cwd=cwd, env=ENV, capture_output=True, text=True, timeout=timeout)
+    return subprocess.run(cmd, cwd=cwd, env=ENV, capture_output=True, text=True, errors="replace", timeout=timeout)
 
 
 def worktree():
